@@ -45,12 +45,12 @@ def main():
         finally:
             sh(f"git -C {REPO} checkout -- . && git -C {REPO} clean -fdq")
         m["checks"] = caught
-        m["caught_by"] = [p for p, v in caught.items() if v["exit"] == 1]
+        m["caught_by"] = [p for p, v in caught.items() if v["exit"] == 1 and v["violations"] > 0]
         m["flagged_inconclusive_by"] = [p for p, v in caught.items() if v["exit"] == 2]
         m["rechecked_with_verif"] = sh(f"git -C {V} log --format=%h -1").stdout.strip() + "+"
         json.dump(m, open(os.path.join(d, "meta.json"), "w"), indent=1)
         own = caught[m["property"]]
-        rows.append((sid, own["exit"], own["first"][:120]))
+        rows.append((sid, own["exit"] if own["violations"] or own["exit"] != 1 else "1-without-VIOLATION-line", own["first"][:120]))
         print(rows[-1], flush=True)
     bad = [r for r in rows if r[1] != 1]
     print(f"{len(rows)} re-checked; not caught by own check: {[r[0] for r in bad]}")
